@@ -141,7 +141,12 @@ def data_leaks(E, v, data_ids, inside_binder=False, acc=None):
     return acc
 
 
+VALUE_DECLS = {k + "_val" for k in LITERAL_KINDS if k != "Boolean"}
+
+
 def _mentions(t, ids, seen=None):
+    """does the term mention a value of the filter: one of the given terms, or the .val accessor of a literal kind
+    (other than Boolean) applied to anything"""
     seen = set() if seen is None else seen
     if t.get_id() in seen:
         return False
@@ -149,6 +154,8 @@ def _mentions(t, ids, seen=None):
     if t.get_id() in ids:
         return True
     if z3.is_app(t):
+        if t.num_args() == 1 and t.decl().name() in VALUE_DECLS:
+            return True
         return any(_mentions(t.arg(i), ids, seen) for i in range(t.num_args()))
     return False
 
@@ -256,7 +263,9 @@ def run_family(c, facts, fam, timeout, prop, known, clauses=None):
     # filter values of this node: the .val of literal kinds (and of literal arguments read directly)
     data_ids = set()
     if not is_call and kind in LITERAL_KINDS and kind != "Boolean":
-        data_ids.add(z3.simplify(PV.s(U.field(kind, "val", node))).get_id())
+        vt = z3.simplify(U.field(kind, "val", node))         # the field constant of the fresh node
+        data_ids.add(vt.get_id())
+        data_ids.add(z3.simplify(PV.s(vt)).get_id())
     if is_call:
         for a in arg_consts:
             for lk in LITERAL_KINDS:
@@ -352,6 +361,66 @@ def skeleton(v):
     if isinstance(v, (SStr, Sym, SBool, SInt)):
         return "<data>"
     return repr(v)[:60]
+
+
+def replay_spec_c08(facts, r):
+    """native replay of a refuted parameter-binding obligation: the witness (sanitised, fitted to the fixture's fields) is
+    wrapped into a predicate if it is not one, compiled, then compiled again with every literal value replaced by another
+    value of the same kind; the SQL texts must be identical and contain none of the string values"""
+    from vc.pyval import to_py_source
+    from contracts.orm_native import ORM_NATIVE
+    w = r.get("witness") or {}
+    if "e" not in w:
+        return None
+    es = to_py_source(w["e"])
+    bkey = r.get("orm")
+    script = ORM_NATIVE + f"""
+bkey = {bkey!r}
+try:
+    w = {es}
+except Exception as ex:
+    w = None
+ALT = {{"Integer": ["3", "41"], "Float": ["2.5", "0.125"], "String": ["zq' OR '1'='1", "%_zq;--"], "Date": ["2021-03-04", "1999-12-31"],
+       "Time": ["11:22:33", "01:02:03"], "DateTime": ["2021-03-04T11:22:33Z", "1999-12-31T23:59:59Z"],
+       "Duration": ["P2DT3H", "PT5M"], "GUID": ["aaaaaaaa-aaaa-aaaa-aaaa-aaaaaaaaaaaa", "00000000-0000-0000-0000-000000000001"],
+       "Geography": ["SRID=4326;POINT(1 2)", "SRID=4326;POINT(3 4)"]}}
+def revalue(n, i):
+    if isinstance(n, list):
+        return [revalue(x, i) for x in n]
+    if dataclasses.is_dataclass(n) and not isinstance(n, type):
+        k = type(n).__name__
+        if k in ALT:
+            return type(n)(ALT[k][i])
+        return type(n)(**{{f.name: revalue(getattr(n, f.name), i) for f in dataclasses.fields(n)}})
+    return n
+def predicate(n):
+    k = type(n).__name__
+    if k in ("Compare", "BoolOp", "CollectionLambda") or (k == "UnaryOp" and isinstance(n.op, ast.Not)):
+        return [n]
+    if k == "Call" and n.func.name in ("contains", "startswith", "endswith", "hassubset", "hassubsequence", "intersects"):
+        return [n]
+    if k == "List":
+        return [ast.Compare(ast.In(), ast.Identifier("title"), n), ast.Compare(ast.In(), ast.Identifier("views"), n)]
+    return [ast.Compare(ast.Eq(), x, n) for x in (ast.Identifier("title"), ast.Identifier("views"), ast.Identifier("published_at"))] + \
+           [ast.Compare(ast.Eq(), n, n)]
+problems, compiled = [], 0
+for tr in (variants(w)[1:] if w is not None else []):
+    for p in predicate(tr):
+        outs = [compile_sql(bkey, revalue(p, i)) for i in (0, 1)] + [compile_sql(bkey, p)]
+        if any(o is None or o[0] == "compile-error" for o in outs):
+            continue
+        compiled += 1
+        if len(set(o[0] for o in outs)) != 1:
+            problems.append([ref_render(p)[:160], "SQL text depends on the values: " + "  |  ".join(sorted(set(o[0][-160:] for o in outs)))])
+        else:
+            for i in (0, 1):
+                for sv in ALT["String"] + ALT["Geography"]:
+                    if sv in outs[i][0]:
+                        problems.append([ref_render(revalue(p, i))[:160], "value spliced into SQL text: " + outs[i][0][-200:]])
+print(json.dumps({{'violates': bool(problems), 'problems': problems[:4], 'compiled': compiled}}))
+"""
+    return {"native_script": script, "input_text": f"backend={bkey} e={es[:300]}",
+            "required": "identical compiled SQL for two value assignments; values only in the parameter list"}
 
 
 def replay_spec(facts, r):
